@@ -259,6 +259,13 @@ func c08Eval(c c08Case) (ok bool, sig, detail string) {
 		}
 		// bytes of Locate agree
 		L := 64
+		for _, sg := range segs {
+			for _, e := range sg {
+				if e+len(all)+8 > L {
+					L = e + len(all) + 8
+				}
+			}
+		}
 		seqres := c08Residues(L)
 		if wantB, okB := labelsOf(exp, seqres); okB {
 			var gotB string
@@ -350,7 +357,7 @@ func c08Mods(n int) []string {
 func init() {
 	register(&Check{ID: "C08", Level: "model_checking", Quick: 120 * time.Second, Thor: 25 * time.Minute,
 		Run: func(r *engine.Run) bool {
-			r.Rule = "every region of 1..4 (quick) / 1..5 (thorough) segments with lengths 1..3, gap 1, every per-segment orientation, as listed and complemented (and nested shapes), x all five modifier forms with both offsets in [-len-3,len+3]; every modifier value print/parse; every modifier token string up to 6 tokens; locator strings assembled from those parts over records with 0..3 features; distinct key = (region, modifier); non-trivial = >=2 segments or reverse orientation with a non-empty inside result"
+			r.Rule = "every region of 1..4 (quick) / 1..5 (thorough) segments with lengths 1..3, gap 1, every per-segment orientation, as listed and complemented (and nested shapes), plus structured regions of up to 12 (quick) / 20 (thorough) segments, x all five modifier forms with both offsets in [-len-3,len+3]; every modifier value print/parse; every modifier token string up to 6 tokens; locator strings assembled from those parts over records with 0..3 features; distinct key = (region, modifier); non-trivial = >=2 segments or reverse orientation with a non-empty inside result"
 			complete := true
 			eval := func(c c08Case, nontrivial bool, size int) {
 				r.Evals.Add(1)
@@ -431,6 +438,56 @@ func init() {
 					break
 				}
 				r.Extra["segments_completed"] = m
+			}
+			// many-segment regions (6..12 quick, ..20 thorough segments): three length patterns x four orientation
+			// patterns, as listed and complemented, x all modifiers
+			maxMany := 12
+			if r.Tier == "thorough" {
+				maxMany = 20
+			}
+			if complete {
+				type reg struct {
+					segs [][2]int
+					n    int
+				}
+				var regs []reg
+				for m := maxM + 1; m <= maxMany; m++ {
+					for lp := 0; lp < 3; lp++ {
+						for op := 0; op < 4; op++ {
+							pos, n := 70, 0
+							var segs [][2]int
+							for k := 0; k < m; k++ {
+								ln := []int{1, 2, 3}[(k+lp)%3]
+								if lp == 2 {
+									ln = 1 + (k*k)%3
+								}
+								rev := op == 1 || op == 2 && k%2 == 1 || op == 3 && k%3 == 0
+								if rev {
+									segs = append(segs, [2]int{pos + ln, pos})
+								} else {
+									segs = append(segs, [2]int{pos, pos + ln})
+								}
+								pos += ln + 1 + k%2
+								n += ln
+							}
+							regs = append(regs, reg{segs, n})
+						}
+					}
+				}
+				r.States.Add(int64(len(regs) * 2))
+				done := r.ParallelFor(len(regs), func(idx int) {
+					rg := regs[idx]
+					for _, comp := range []bool{false, true} {
+						for _, md := range c08Mods(rg.n) {
+							lo, hi := modBounds(parseMod(md), rg.n)
+							eval(c08Case{Kind: "resize", Segs: rg.segs, Comp: comp, Mod: md}, lo >= 0 && hi <= rg.n && lo < hi, 20000+len(rg.segs)*100+len(md))
+						}
+					}
+				})
+				complete = complete && done
+				if done {
+					r.Extra["many_segments_completed"] = maxMany
+				}
 			}
 			// modifier values
 			for p := -20; p <= 20; p++ {
